@@ -38,16 +38,8 @@ Definition cells (s : snap) : list (loc * N) :=
   ++ flat_map (fun kv => [(LTotal (RKey (fst kv)), snd kv); (LPresent (fst kv), 1)]) (s_keys s).
 Definition mem_of (s : snap) : mem := fold_left (fun m lv => set m (fst lv) (snd lv)) (cells s) [].
 
-(* ---- run-length encoded scripts *)
-Definition expand (segs : list (op * N)) : list op :=
-  flat_map (fun on => N.iter (snd on) (cons (fst on)) []) segs.
+(* ---- run-length encoded scripts: expand, sigma_segs, additive_segs, key_incremented are in Atomics.v *)
 Definition all_segs (ph : phase) : list (op * N) := concat (p_scripts ph).
-Definition sigma_segs (l : loc) (segs : list (op * N)) : N :=
-  fold_right (fun on a => delta l (fst on) * snd on + a) 0 segs.
-Definition additive_segs (l : loc) (segs : list (op * N)) : bool :=
-  forallb (fun on => negb (clobbers l (fst on))) segs.
-Definition key_incremented (k : N) (segs : list (op * N)) : bool :=
-  existsb (fun on => incr_of_key k (fst on) && negb (snd on =? 0)) segs.
 Definition incremented_keys (segs : list (op * N)) : list N :=
   flat_map (fun on => match fst on with ORateIncr (RKey k) _ => if snd on =? 0 then [] else [k] | _ => [] end) segs.
 
